@@ -85,7 +85,7 @@ std::vector<Sub> vh_subs() {
     Sub s;
     s.name = "module";  // module-level entry points with prepared / DFT / table operands
     s.fields = {{"k", 1, 14}, {"call", 0, 10}, {"mtype", 0, 1}, {"cfg", 0, 1}, {"s1", 0, 5}, {"s2", 0, 5}, {"nrows", 1, 5}, {"ncols", 1, 5},
-                {"pad", 0, 3}, {"kk", 1, 62}, {"bits", 1, 20}, {"seed", 0, INT64_MAX - 1}};
+                {"pad", 0, 3}, {"kk", 1, 62}, {"bits", 1, 20}, {"seed", 0, INT64_MAX - 1}, {"packed", 0, 3}};
     s.run = [](const Vals& v, Ctx& ctx) {
       const uint64_t k = v[0], n = 1ull << k;
       const int call = (int)v[1];
@@ -100,6 +100,9 @@ std::vector<Sub> vh_subs() {
       const unsigned bits = (unsigned)std::min<int64_t>(v[10], (50 - (int64_t)k) / 2);
       Rng r((uint64_t)v[11]);
       Arena ar;
+      // packed: all operands of the call carved back to back out of one region (upwards / downwards), as a caller that lays out
+      // bytes_of_*() objects in one arena would; otherwise every buffer sits alone between guard pages
+      if (v[12] >= 2) ar.set_packed(v[12] == 2 ? +1 : -1);
       Snaps sn;
       const uint64_t hmod = at::hash_blocks(tm.blocks);
       static const char* names[] = {"vec_znx_normalize_base2k", "vec_znx_dft", "vec_znx_idft", "vec_znx_idft_tmp_a(source of dft)", "svp_prepare", "svp_apply_dft",
@@ -213,6 +216,7 @@ std::vector<Sub> vh_subs() {
       ctx.cls(mt == FFT64 ? "module:FFT64" : "module:NTT120");
       ctx.cls(mask ? "cfg:generic" : "cfg:full");
       ctx.cls("sources:" + std::to_string(sources));
+      if (v[12] >= 2) ctx.cls(v[12] == 2 ? "placement:packed-up" : "placement:packed-down");
     };
     subs.push_back(s);
   }
